@@ -240,8 +240,8 @@ theorem unbond_good {s s' : St} {a : Addr} (e : unbond s a = .ok s') : Good s s'
           · split at e
             · cases e
             · injection e with e; subst e
-              exact (Good.of_eq (s := s) (s' := { s with nq := insertSorted ltPair (s.t + s.p.noticePeriod, a) s.nq }) rfl rfl rfl).trans
-                (Good.setSeq (q := { q with optedIn := false, notice := some (s.t + s.p.noticePeriod) }) (q0 := q)
+              exact (Good.of_eq (s := s) (s' := { s with nq := insertSorted ltPair (s.t + s.sqp.noticePeriod, a) s.nq }) rfl rfl rfl).trans
+                (Good.setSeq (q := { q with optedIn := false, notice := some (s.t + s.sqp.noticePeriod) }) (q0 := q)
                   (by show getSeq s q.addr = some q; rw [hqa]; exact hg) rfl)
         · split at e
           · cases e
@@ -326,7 +326,7 @@ theorem slashLiveness_good {s s1 : St} {r : Rollapp} (e : slashLiveness s r = .o
       · rename_i s2 q2 hsl
         injection e with e; subst e
         have mf := slash_mf hsl
-        exact Good.money (q1 := { q2 with dishonor := q2.dishonor + s2.p.dishonorL })
+        exact Good.money (q1 := { q2 with dishonor := q2.dishonor + s2.sqp.dishonorL })
           ⟨mf.ras, mf.seqs, mf.seqH, mf.addr, mf.rollapp⟩ (q0 := q) (by rw [getSeq_addr hg]; exact hg) rfl
 
 theorem handleLivenessEvent_good (s : St) (ra : Nat) : Good s (handleLivenessEvent s ra) := by
@@ -381,8 +381,8 @@ theorem seqAfterUpdate_facts {s s' : St} {m : UpdMsg} {b : Bool} (hc : ChainAll 
   · cases e
   · rename_i prop hg
     dsimp only at e
-    have g : Good s (setSeq s { prop with dishonor := prop.dishonor - min s.p.dishonorSU prop.dishonor }) :=
-      Good.setSeq (q := { prop with dishonor := prop.dishonor - min s.p.dishonorSU prop.dishonor }) (q0 := prop)
+    have g : Good s (setSeq s { prop with dishonor := prop.dishonor - min s.sqp.dishonorSU prop.dishonor }) :=
+      Good.setSeq (q := { prop with dishonor := prop.dishonor - min s.sqp.dishonorSU prop.dishonor }) (q0 := prop)
         (by show getSeq s prop.addr = some prop; rw [getSeq_addr hg]; exact hg) rfl
     split at e
     · have := onProposerLastBlock_facts (show ChainAll (setSeq s _) from hc.ras_eq rfl) (g.J h) e
@@ -582,6 +582,14 @@ theorem apply_j {s s' : St} {o : Op} (hi : Inv s) (e : apply s o = .ok s') : J s
   | update m => exact updateState_j hi e
   | fraud au ra hh rev p rw => exact fraud_j hi e
   | obsolete au vs => exact markObsolete_j hi e
+  | punish au a rw => exact (punish_good (punishProposal_ok e).2).J hi.j
+  | transferOwner sg ra' no =>
+    obtain ⟨r, hg, _, _, _, rfl⟩ := transferOwner_ok e
+    exact (Good.setRa rfl rfl rfl (r0 := r) (r1 := { r with owner := no })
+      (by show getRa s r.id = some r; rw [getRa_id hg]; exact hg) rfl (fun x => x.of_fields rfl rfl rfl)).J hi.j
+  | setSeqParams au sp =>
+    obtain ⟨_, hnp, _, rfl⟩ := setSeqParams_ok e
+    exact hi.j.of_eq rfl rfl rfl
   | begin_ dt =>
     simp only [apply] at e; injection e with e; subst e
     exact (beginBlock_good hi.cust.nodup).J hi.j
